@@ -346,8 +346,8 @@ reg('C03', 'model_checking',
     'update_nnps - of a three-equation group followed by a '
     'neighbour-dependent probe group; two-group programs over all '
     'destination/source wirings of three arrays; sub-groups with their own '
-    'flags inside five kinds of parents (plain, pre+post, condition, '
-    'update_nnps, iterated).',
+    'flags inside eight kinds of parents (plain, pre+post, condition, '
+    'update_nnps, iterated, and combinations of those).',
     'Trusted: the reference interpreter (the model of the documented '
     'order); programs are packed 24 per generated module with a boundary '
     'group that snapshots and resets the arrays. A generated module that '
